@@ -19,9 +19,12 @@ progress) and F14 (`lshift` shifts the unsigned representation) the theorems of 
 hypothesis "no unfinished slew" of the pinned tree is gone; the pre-repair function and the two witnesses of its
 failure are kept in §3b as a historical record.  F35 (the two cross-faded streams could get out of step: the C
 assertion `odone == odone2` failed) was found by this model and repaired in /repo (`occupancy0` is re-aligned at an
-up-switch: `alignOcc`); §7 keeps the negation of the alignment statement for the pre-repair loop with its concrete
+up-switch: `switchOcc`); §7 keeps the negation of the alignment statement for the pre-repair loop with its concrete
 witness, shows the same call sequence aligned on the current model (the check replays it on the real code), and
-proves the part of the alignment that the skeleton carries.
+proves the part of the alignment that the skeleton carries.  F36 (a stage restarted by a second or third up-switch of
+one call was read beyond the samples it holds: garbage output, then a stage below its preload) was found by C07's
+sanitizer sweep, located with this model's stage occupancies and repaired in /repo (`occupancy0` is clamped to what the
+restarted stage holds: `switchOcc`); §8 has the theorem for the current code and the pre-repair witness.
 
 Units: `step` counts `2⁻³²` samples of the current stage per (2x-rate) output; `rateIn` (`Vr/Arith.lean`) is the same
 quantity in the stage-independent unit `2⁻³³` input frames per output frame.
@@ -679,7 +682,7 @@ coarsest stage in use *then*; before the repair, when one call took an up-switch
 (coarser) fade-out stream kept the floored `occupancy0 >> (sn+1)`; the finer stream, run first, then delivered pairs the
 coarser one had no input for, and the two streams were one sample apart for the rest of the fade (fade-out clock
 negative).  The repair rounds `occupancy0` down to whole samples of the new coarsest stage at every up-switch
-(`alignOcc`).  `Historical.chunkPre35 … runPre35` is the loop as it was; `Historical.pre_fix_fade_alignment_fails` is the
+(`switchOcc`).  `Historical.chunkH rulePre35 … runPre35` is the loop as it was; `Historical.pre_fix_fade_alignment_fails` is the
 negation of "`nmis = 0` for every run" on it, with the concrete witness that the check replayed on the real code. -/
 
 /-- max ratio 8; start at 0.25 (up-sampling stage), jump to 6 at once (the engine climbs one octave stage per 512-frame
@@ -689,42 +692,58 @@ def opsF35 : List (Op Nat) :=
 
 namespace Historical
 
-/-- one iteration of the `while` loop before the repair of F35: `occupancy0` is a constant of the call -/
-def chunkPre35 (cfg : Cfg ρ) (occ0 : Int) (olen0 : Nat) (l : LoopSt ρ) : LoopSt ρ × Bool :=
+/-- one iteration of the `while` loop with an earlier rule for `occupancy0` at a stage switch (`rule a dif occ`:
+    the value `enter_new_stage` was called with; `a` the state before the switch) -/
+def chunkH (rule : St ρ → Int → Int → Int) (cfg : Cfg ρ) (olen0 : Nat) (l : LoopSt ρ) : LoopSt ρ × Bool :=
   let a := chunkStart cfg l.st (olen0 - l.od0)
   let dif := stageDif a.1
   let sw := doesSwitch a.1
-  let s := if sw then switchStage a.1 dif occ0 else a.1
+  let s := if sw then switchStage a.1 dif (rule a.1 dif l.occ) else a.1
   let k := kernels s a.2 (chunkMn l dif) (chunkMx l dif (decide (a.1.cur.sn + dif < a.1.ns)))
-  (chunkFinish l sw (sw && negLeftShift a.1 dif) k, decide ((k.od : Int) = k.olen))
+  ({ chunkFinish l sw (sw && negLeftShift a.1 dif) k with occ := if sw then rule a.1 dif l.occ else l.occ },
+   decide ((k.od : Int) = k.olen))
 
-def loopPre35 (cfg : Cfg ρ) (occ0 : Int) (olen0 : Nat) : Nat → LoopSt ρ → LoopSt ρ
+def loopH (rule : St ρ → Int → Int → Int) (cfg : Cfg ρ) (olen0 : Nat) : Nat → LoopSt ρ → LoopSt ρ
   | 0, l => l
   | f + 1, l =>
     if l.od0 < olen0 then
-      let r := chunkPre35 cfg occ0 olen0 l
-      if r.2 then loopPre35 cfg occ0 olen0 f r.1 else r.1
+      let r := chunkH rule cfg olen0 l
+      if r.2 then loopH rule cfg olen0 f r.1 else r.1
     else l
 
-def processPre35 (cfg : Cfg ρ) (s : St ρ) (olen0 : Nat) : PRes ρ :=
+def processH (rule : St ρ → Int → Int → Int) (cfg : Cfg ρ) (s : St ρ) (olen0 : Nat) : PRes ρ :=
   let p := preLoop cfg s olen0
-  let l := loopPre35 cfg p.2 olen0 (olen0 + 1) p.1
+  let l := loopH rule cfg olen0 (olen0 + 1) p.1
   let s := post l.st l.mn l.mx
   { st := { s with oocc := s.oocc - ((olen0 : Int) - l.od0) }, od := l.od0, nsw := l.nsw, nmis := l.nmis, nneg := l.nneg,
     nshl := l.nshl }
 
-def stepOpPre35 (cfg : Cfg ρ) (r : Run ρ) : Op ρ → Run ρ
+def stepOpH (rule : St ρ → Int → Int → Int) (cfg : Cfg ρ) (r : Run ρ) : Op ρ → Run ρ
   | .ratio x slew => { r with st := setIoRatio cfg r.st x slew }
   | .proc ilen olen =>
-    let p := processPre35 cfg (input r.st ilen) olen
+    let p := processH rule cfg (input r.st ilen) olen
     { st := (output p.st olen).1, out := r.out + p.od, nsw := r.nsw + p.nsw, nmis := r.nmis + p.nmis,
       nneg := r.nneg + p.nneg, nshl := r.nshl + p.nshl }
   | .flush olen =>
-    let p := processPre35 cfg (flush r.st) olen
+    let p := processH rule cfg (flush r.st) olen
     { st := (output p.st olen).1, out := r.out + p.od, nsw := r.nsw + p.nsw, nmis := r.nmis + p.nmis,
       nneg := r.nneg + p.nneg, nshl := r.nshl + p.nshl }
 
-def runPre35 (cfg : Cfg ρ) (r : Run ρ) (ops : List (Op ρ)) : Run ρ := ops.foldl (stepOpPre35 cfg) r
+def runH (rule : St ρ → Int → Int → Int) (cfg : Cfg ρ) (r : Run ρ) (ops : List (Op ρ)) : Run ρ :=
+  ops.foldl (stepOpH rule cfg) r
+
+/-- before the repair of F35: `occupancy0` was a constant of the call -/
+def rulePre35 : St ρ → Int → Int → Int := fun _ _ occ => occ
+/-- between the repairs of F35 and F36: re-aligned at an up-switch, but not clamped to what the restarted stage holds -/
+def rulePre36 : St ρ → Int → Int → Int := fun a dif occ =>
+  if dif > 0 ∧ a.cur.sn + dif > 0 then occ / 2 ^ (a.cur.sn + dif).toNat * 2 ^ (a.cur.sn + dif).toNat else occ
+
+def runPre35 (cfg : Cfg ρ) (r : Run ρ) (ops : List (Op ρ)) : Run ρ := runH rulePre35 cfg r ops
+def runPre36 (cfg : Cfg ρ) (r : Run ρ) (ops : List (Op ρ)) : Run ρ := runH rulePre36 cfg r ops
+
+/-- the current loop is the historical one with the current rule -/
+theorem chunk_eq_chunkH (cfg : Cfg ρ) (olen0 : Nat) (l : LoopSt ρ) :
+    chunk cfg olen0 l = chunkH (fun a dif occ => switchOcc a dif occ) cfg olen0 l := rfl
 
 def witnessF35Pre : Run Nat := runPre35 wcfg { st := init wcfg b8 } opsF35
 
@@ -781,7 +800,7 @@ theorem fade_alignment_down_partial (s : St ρ) (occ0 olen mn mx : Int) (hsn : 1
 
 /-- **`occupancy0` is aligned throughout every `vr_process` call** (the repair of F35 as an invariant): from *any*
     state, `vr_process` enters its loop with `occupancy0` a whole number of samples of the current stage and the current
-    stream's `len` equal to it in those samples, and every chunk — snap, up-switch (re-aligned by `alignOcc`),
+    stream's `len` equal to it in those samples, and every chunk — snap, up-switch (re-aligned by `switchOcc`),
     down-switch, fade, plain interpolation — keeps that. -/
 theorem occ_aligned_invariant (cfg : Cfg ρ) (s : St ρ) (olen0 : Nat) :
     OccInv (preLoop cfg s olen0).1 ∧
@@ -817,6 +836,52 @@ example : ∃ s : St Nat, 1 ≤ s.cur.sn ∧ s.cur.isD = true ∧ s.cur.len = sh
     (1248 : Int) % 2 ^ s.cur.sn.toNat = 0 ∧ (switchStage s (-1) 1248).cur.len = 624 ∧ (1246 : Int) % 2 ^ s.cur.sn.toNat ≠ 0 :=
   ⟨{ cur := { clk := 12345678901, step := 1000000000, ss := -7, sn := 2, isD := true, len := 312 },
      stages := #[{}, {}, {}, {}] }, by decide⟩
+
+/-! ## 8. A restarted stage is not read beyond what it holds (F36, repaired)
+
+`enter_new_stage` gives the new current stream `len = occupancy0 >> stage_num`.  A half-band stage entered by an up-switch
+is restarted (cleared, preloaded, filled once from its neighbour), so it holds `preload + what do_input_stage computed`;
+before the repair `occupancy0` — computed at the start of the call from another stage — could exceed that from the second
+up-switch of one call on (−40 samples of slack at the second, −85 at the third): the interpolator read stale memory
+beyond the stage's data (garbage in the last ~100 output frames of the call) and the post-loop `fifo_read` left the
+stage with fewer samples than its preload, so that the next call computed `already_done < 0` (UBSan: the report C07
+found).  The repair clamps `occupancy0` at every up-switch to what the restarted stage holds (`switchOcc`). -/
+
+/-- **After an up-switch the new stream's `len` is inside the restarted stage.**  For every state and every
+    `occupancy0`: `len ≤ max(0, fifo_occupancy − 2·HALF_FIR_LEN_2 − POLY_FIR_LEN_D/2)` of the stage switched to — the
+    interpolator's highest read index `2·HALF_FIR_LEN_2 + (len − 1) + POLY_FIR_LEN_D/2` is below the FIFO's occupancy — and
+    `occupancy0` never grows at a switch. -/
+theorem up_switch_reads_within_stage (s : St ρ) (occ0 : Int) (hsn : 0 ≤ s.cur.sn) :
+    (switchStage s 1 (switchOcc s 1 occ0)).cur.len ≤
+      max 0 (((switchPrep s 1).stg (s.cur.sn + 1)).occ - 2 * (H2 : Int) - ((PD / 2 : Nat) : Int)) ∧
+    (∀ dif, switchOcc s dif occ0 ≤ occ0) :=
+  ⟨switch_up_len_within_stage s occ0 hsn, fun dif => switchOcc_le s dif occ0⟩
+
+def b16 : Nat := 0x4030000000000000     -- 16.0
+def b067 : Nat := 0x3FE57B2D4DFF339C    -- 0.6712862513901316
+def b877 : Nat := 0x40218B8EA66B5309    -- 8.772572708703153
+
+/-- the call sequence C07 found (seed 3): 0.67 → 8.77 over one frame, then a call that takes three up-switches -/
+def opsF36 : List (Op Nat) := [.ratio b067 0, .ratio b877 1, .proc 1023 117, .proc 31850 10259]
+
+set_option maxRecDepth 1000000 in
+/-- **F36 (historical; the loop between the repairs of F35 and F36).**  After the long call stage 3 is left with 166
+    samples, fewer than its preload of 180 (`already_done = −14` in the next call: the UBSan report), three stage switches
+    having been taken in that call. -/
+theorem Historical.pre_fix_stage_left_below_preload :
+    ((Historical.runPre36 wcfg { st := init wcfg b16 } opsF36).st.stg 3).occ = 166 ∧ stagePreload 3 = 180 ∧
+    (Historical.runPre36 wcfg { st := init wcfg b16 } opsF36).nsw = 4 := by
+  decide +kernel
+
+set_option maxRecDepth 1000000 in
+/-- the same call sequence on the current code: every stage keeps at least its preload (replayed on the real code by the
+    check, under UBSan and with a sine whose fit residual must stay below −80 dB to the end of the call) -/
+theorem witnessF36_within :
+    stagePreload 3 ≤ ((run wcfg { st := init wcfg b16 } opsF36).st.stg 3).occ ∧
+    stagePreload 2 ≤ ((run wcfg { st := init wcfg b16 } opsF36).st.stg 2).occ ∧
+    stagePreload 1 ≤ ((run wcfg { st := init wcfg b16 } opsF36).st.stg 1).occ ∧
+    (run wcfg { st := init wcfg b16 } opsF36).nsw = 4 ∧ (run wcfg { st := init wcfg b16 } opsF36).nmis = 0 := by
+  decide +kernel
 
 /-! ## Open statements (not proved; decided on sampled inputs by the falsifier of `checks/c16.py`) -/
 
